@@ -291,6 +291,17 @@ impl C13Check {
                     } else {
                         res.probe("stop_index_beyond_last_poll");
                     }
+                    if out.interval_seen != p {
+                        // "polled as often as promised" starts with the
+                        // shipped watchdog promising what it was asked for.
+                        violations.push(violation(
+                            "interval-not-honoured",
+                            format!("a FlagWatchdog built with polling_every({p}) answers {} from poll_every()", out.interval_seen),
+                            &sc,
+                            json!({"site": "watchdog", "requested": p, "answered": out.interval_seen}),
+                        ));
+                        break;
+                    }
                     if let Some(v) = cancel_oracles(&sc, &base, &out) {
                         violations.push(v);
                         break;
@@ -368,6 +379,14 @@ impl Check for C13Check {
             }
         }
         let out = sim::run(&sc, &RunOpts::default());
+        if out.interval_seen != sc.wd.poll_every {
+            return Ok(Some(violation(
+                "interval-not-honoured",
+                format!("a FlagWatchdog built with polling_every({}) answers {} from poll_every()", sc.wd.poll_every, out.interval_seen),
+                &sc,
+                json!({"site": "watchdog", "requested": sc.wd.poll_every, "answered": out.interval_seen}),
+            )));
+        }
         Ok(cancel_oracles(&sc, &base, &out))
     }
 }
